@@ -29,7 +29,7 @@ import os
 import sys
 
 sys.path.insert(0, os.path.dirname(os.path.abspath(__file__)))
-from core import Check, run_check, ROOT  # noqa: E402
+from core import Check, run_check, ROOT, InfraError  # noqa: E402
 import env  # noqa: E402,F401
 import simnet  # noqa: E402
 from simnet import FaultScript  # noqa: E402
@@ -952,6 +952,7 @@ def main():
     # ---- C. discovery
     disc_requests = run_discovery(chk, stats)
     run_refresh_loop(chk, stats)
+    run_refresh_during_command(chk, stats)
 
     lap('discovery')
     # ---- D. the bare decorator and the decorator table against the model
@@ -1096,6 +1097,76 @@ def run_discovery(chk, stats):
     chk.sample({'discovery': {'known': old_sets[1], 'network': new_rows,
                               'faults': {'Strip|get_color_zones': '111'}}})
     return requests
+
+
+def run_refresh_during_command(chk, stats):
+    """the discovery thread does its work (LightSet.refresh: discovery, then expiry) BETWEEN two
+    requests of a group / location command one of whose members does not answer.  By then that
+    member has been silent for longer than light_gc_time, so the refresh drops it from the
+    directory — while the command is still at it.  Every other member must get the command
+    exactly once all the same."""
+    from bardolph.controller.script_job import ScriptJob
+    from bardolph.lib import settings as settings_mod
+    rows = [('A', 'plain', 'Pole', 'Home'), ('B', 'plain', 'Pole', 'Home'),
+            ('C', 'multizone', 'Pole', 'Home'), ('D', 'plain', 'Pole', 'Home')]
+    commands = [('set group "Pole"', 'set_color'), ('set location "Home"', 'set_color'),
+                ('on group "Pole"', 'set_power'), ('off location "Home"', 'set_power')]
+    stats['refresh_during_command'] = 0
+    for silent in ('A', 'B', 'C'):
+        for text, meth in commands:
+            for at_failure in (1, 2, 3):
+                net, ls, trace = simnet.install(make_pop(rows))
+                settings_mod.Settings._the_config['light_gc_time'] = 100
+                net.faults = fault_script({(silent, meth): '*'})
+                net.clear_log()
+                REC.clear()
+                seen = {'fails': 0, 'refreshed': False, 'escaped': None}
+
+                def hook(ev, seen=seen, net=net, ls=ls, silent=silent, meth=meth, at=at_failure):
+                    if ev[0] == silent and ev[1] == meth and ev[3] == 'fail':
+                        seen['fails'] += 1
+                        if seen['fails'] == at and not seen['refreshed']:
+                            seen['refreshed'] = True
+                            net.vanished.add(silent)
+                            net.clock.now += 101
+                            saved, net.faults = net.faults, fault_script({})
+                            try:
+                                ls.refresh()
+                            except BaseException as ex:  # noqa
+                                seen['escaped'] = type(ex).__name__
+                            net.faults = saved
+                    return True
+                net.on_event = hook
+                script = 'hue 10 saturation 20 brightness 30 kelvin 2700 duration 1 {} print "{}"'.format(
+                    text, MARKER)
+                job = ScriptJob.from_string(script)
+                escaped = None
+                try:
+                    job.execute()
+                except BaseException as ex:  # noqa
+                    escaped = type(ex).__name__
+                net.on_event = None
+                outs = [t[1] for t in trace if t[0] == 'out']
+                chk.count()
+                stats['refresh_during_command'] += 1
+                replay = {'kind': 'refresh-during-command', 'network': [list(r) for r in rows],
+                          'silent': silent, 'command': text, 'refresh_after_failed_attempt': at_failure}
+                got = {lab: len([e for e in net.events if e[0] == lab and e[3] == 'ok' and
+                                 e[1] in ('set_color', 'set_power', 'set_zone_color')])
+                       for lab, _k, _g, _l in rows if lab != silent}
+                if escaped or seen['escaped'] or MARKER not in outs:
+                    chk.violation('script-aborted:refresh-during-command',
+                                  '{} with "{}" silent: script {} (refresh: {})'.format(
+                                      text, silent, escaped or 'did not reach its end', seen['escaped']), replay)
+                elif not seen['refreshed']:
+                    raise InfraError('the refresh hook never ran')
+                elif any(n != 1 for n in got.values()):
+                    chk.violation('other-devices-disturbed:refresh-during-command',
+                                  '{} with "{}" silent and a refresh after its failed attempt {}: commands '
+                                  'delivered per other member {} (1 each expected)'.format(
+                                      text, silent, at_failure, got), replay)
+                else:
+                    chk.nontrivial_case(('refresh-during', silent, text, at_failure))
 
 
 def run_refresh_loop(chk, stats):
